@@ -153,6 +153,22 @@ func VerifC13() {
 			}
 		}
 		rt.Assert(len(GetRules()) == total, "GetRules reports exactly the enforced rules")
+		// probing traffic: a callee node becomes known (its breaker is built as the statistic slot does);
+		// the breakers of the known nodes are governed by the rule in force, and a resource without a rule has none
+		for _, n := range verifNames[1:] {
+			if ref[n] != nil && rt.Bool("nodeSeen") {
+				addNodeBreakerOfResource(n, "10.0.0.1:80")
+			}
+			nbs := getNodeBreakersOfResource(n)
+			if ref[n] == nil {
+				rt.Assert(len(nbs) == 0, "a resource without a rule in force keeps no node breakers")
+				continue
+			}
+			for _, b := range nbs {
+				rt.Reach("c13.node-breaker")
+				rt.Assert(b != nil && *b.BoundRule() == *ref[n].Rule, "the breakers of known nodes are governed by the latest valid rule of their resource")
+			}
+		}
 	}
 	rt.Reach("c13.done")
 }
